@@ -477,6 +477,19 @@ def list_file_case(ctx, i, rng):
         after = os.getcwd()
     finally:
         os.chdir(old)
+    # the spelling of the argument's default, given where it does not lead to a file: a path value is a checked Path, never a raw str
+    os.makedirs(os.path.join(root, "other"), exist_ok=True)
+    os.chdir(os.path.join(root, "here", sub))
+    try:
+        q2 = ArgumentParser(exit_on_error=False)
+        q2.add_argument("--f", type=Path_fr, default=Path_fr("data/x.txt"))
+        os.chdir(os.path.join(root, "other"))
+        o2 = call(q2.parse_args, ["--f=data/x.txt"])
+    finally:
+        os.chdir(old)
+    ctx.count("mon.default_spelling_given_elsewhere")
+    if o2.accepted and (not hasattr(o2.value.f, "absolute") or not os.path.isfile(o2.value.f.absolute)):
+        ctx.violation("path", "accepted-although-mode-not-satisfied/spelling-equal-to-default", dict(given="data/x.txt", cwd="<root>/other", default_created_in=f"<root>/here/{sub}", result=repr(o2.value.f), result_type=type(o2.value.f).__name__))
     ctx.count("mon.list_file_on_argv")
     ctx.evaluation(("B-list-file", sub, spelling))
     w = dict(list_file=given, cwd="<root>/here", outcome=o.brief())
